@@ -37,10 +37,15 @@ Steps(st, op, D) ==
          ELSE {R(st, Obs("found", {})), R(st, Obs("missing", {}))}
     [] op.k = "names" ->   \* what a reporting channel lists for this kind: the fold of the creation spelling, exactly
          {R(st, Obs("ok", st.made[op.kind]))}
+    [] op.k = "kwcase" /\ op.what = "set_tag" ->   \* ALTER TABLE t MODIFY COLUMN c SET TAG k = 'v' in any keyword case: accepted
+         {R(st, Obs("ok", {}))}
     [] op.k = "kwcase" ->  \* CREATE USER in any keyword case; the (unquoted) user name is reported folded
          {R(st, Obs("ok", {"ZED"}))}
          \cup (IF "C02.create_user_lowercase_keyword" \in D /\ op.kw # "upper" THEN {R(st, Obs("err", {}))} ELSE {})
          \cup (IF "C02.user_name_not_folded" \in D THEN {R(st, Obs("ok", {"zed"}))} ELSE {})
+    [] op.k = "quotedpair" ->  \* two statements of one session that differ only in the letter case of a QUOTED identifier:
+                               \* SELECT 1 AS "ab" then SELECT 1 AS "Ab" - each reports its own spelling
+         {R(st, Obs("ok", {Fold(op.first), Fold(op.second)}))}
 
 Stmts(kind) == CASE kind = "table" -> {"select", "insert", "update", "delete", "describe", "merge_target", "merge_source", "join"}
                  [] kind = "view" -> {"select", "describe"}
@@ -49,7 +54,7 @@ Stmts(kind) == CASE kind = "table" -> {"select", "insert", "update", "delete", "
                  \* an alias of the select list referred to in the same statement's JOIN ... ON / ORDER BY
                  [] kind = "alias" -> {"join_on", "orderby"}
                  [] kind = "variable" -> {"select"}
-Channels(kind) == CASE kind = "table" -> {"info_tables", "show_tables", "show_objects"}
+Channels(kind) == CASE kind = "table" -> {"info_tables", "show_tables", "show_objects", "show_pk"}
                     [] kind = "view" -> {"info_views", "show_objects", "info_tables"}
                     [] kind = "column" -> {"description", "dictkeys", "info_columns", "describe"}
                     [] kind = "schema" -> {"show_schemas", "conn_schema"}
@@ -62,18 +67,21 @@ SpOf(kind) == IF kind = "variable" THEN {"lower", "upper", "mixed"}
 FnOk(o) == /\ o.sp2 \notin FnSp
            /\ (o.sp \in FnSp => (o.kind = "table" /\ o.stmt \in {"select", "insert", "update", "delete", "join"})
                                 \/ (o.kind = "view" /\ o.stmt = "select"))
-CONSTANTS KindsUsed
+CONSTANTS KindsUsed, FindsUsed
 Ops(st) ==
   UNION {(IF st.made[kd] = {} THEN [k : {"make"}, kind : {kd}, sp : SpOf(kd), kw : {"lower", "upper", "mixed"}] ELSE {})
-         \cup {o \in [k : {"find"}, kind : {kd}, sp : SpOf(kd), stmt : Stmts(kd), kw : {"lower", "upper", "mixed"}, sp2 : SpOf(kd)] : FnOk(o)}
+         \cup (IF FindsUsed THEN {o \in [k : {"find"}, kind : {kd}, sp : SpOf(kd), stmt : Stmts(kd), kw : {"lower", "upper", "mixed"}, sp2 : SpOf(kd)] : FnOk(o)} ELSE {})
          \cup [k : {"names"}, kind : {kd}, ch : Channels(kd)] : kd \in KindsUsed \cap Kinds}
-  \cup [k : {"kwcase"}, what : {"create_user"}, name : {"ZED"}, kw : {"lower", "upper", "mixed"}]
+  \cup [k : {"kwcase"}, what : {"create_user", "set_tag"}, name : {"ZED"}, kw : {"lower", "upper", "mixed"}]
+  \cup [k : {"quotedpair"}, first : {"qlower", "qupper", "qmixed"}, second : {"qlower", "qupper", "qmixed"}, ch : {"description", "dictkeys"}]
 
 StepOk(st, op, r) ==
   /\ (op.k = "find" /\ Fold(op.sp) \in st.made[op.kind] /\ Fold(op.sp2) \in st.made[op.kind] => r.obs.res = "found")                         \* equal folds denote the same object
   /\ (op.k = "names" => r.obs.names = st.made[op.kind])                                                \* reported name = fold of the creation spelling
   /\ (op.k = "make" /\ r.obs.res = "ok" /\ op.kind \in {"table", "view", "schema"} => r.obs.names = {Fold(op.sp)})
-  /\ (op.k = "kwcase" => r.obs.res = "ok" /\ r.obs.names = {"ZED"})                                                             \* keyword case never matters
+  /\ (op.k = "kwcase" /\ op.what = "create_user" => r.obs.res = "ok" /\ r.obs.names = {"ZED"})
+  /\ (op.k = "kwcase" /\ op.what = "set_tag" => r.obs.res = "ok")
+  /\ (op.k = "quotedpair" => r.obs.names = {Fold(op.first), Fold(op.second)})                                                             \* keyword case never matters
   \* independence of the keyword case: two operations differing only in kw have the same results
   /\ (op.k \in {"make", "find"} => \A kw2 \in {"lower", "upper", "mixed"} : Steps(st, [op EXCEPT !.kw = kw2], {}) = Steps(st, op, {}))
 =============================================================================
